@@ -28,7 +28,7 @@ TConfig ==
   /\ phase' = "build"
 
 TAdd     == IsEv("add") /\ AddTask(Ev.id)
-TDep     == IsEv("dep") /\ DependsOn(Ev.id, Ev.d)
+TDep     == IsEv("dep") /\ (IF Ev.order = <<>> THEN DependsOn(Ev.id, Ev.d) ELSE DependsOnSeq(Ev.id, Ev.order))
 TRetries == IsEv("retries") /\ SetRetries(Ev.id, Ev.n)
 TDefErr  == IsEv("deferr") /\ DefError
 
